@@ -148,6 +148,8 @@ func (c *Conversation) receiveDecoded(message messageWithHeader) (plain MessageP
 		return
 	}
 
+	previousInstanceTag := c.theirInstanceTag
+
 	var messageHeader, messageBody []byte
 	if messageHeader, messageBody, err = c.parseMessageHeader(message); err != nil {
 		if err == errReceivedMessageForOtherInstance {
@@ -159,10 +161,17 @@ func (c *Conversation) receiveDecoded(message messageWithHeader) (plain MessageP
 	msgType := messageHeader[2]
 	switch msgType {
 	case msgTypeData:
-		return c.receiveDataMessage(messageHeader, messageBody)
+		plain, toSend, err = c.receiveDataMessage(messageHeader, messageBody)
 	default:
-		return c.receiveAKEMessage(msgType, messageBody)
+		plain, toSend, err = c.receiveAKEMessage(msgType, messageBody)
 	}
+
+	if err != nil {
+		// a message that is rejected must not bind us to the instance that sent it
+		c.theirInstanceTag = previousInstanceTag
+	}
+
+	return
 }
 
 func (c *Conversation) receiveAKEMessage(msgType byte, messageBody []byte) (plain MessagePlaintext, toSend []messageWithHeader, err error) {
